@@ -7,7 +7,7 @@ from contracts import interstitial_rt as I, vacancy_rt as V
 def main(tier):
     rep = Report('C08', tier)
     n = len(catalogue.builders(tier, SEED))
-    runner.run(rep, 'VacancyMediated::contract', V.w_vacancy, [(cid, tier, SEED, 'C08') for cid in V.vac_ids(tier)], 'onsager/OnsagerCalc.py::VacancyMediated.Lij')
+    runner.run(rep, 'VacancyMediated::contract', V.w_vacancy, [(cid, tier, SEED, 'C08') for cid in V.vac_ids(tier) + ['mono-mirror-site-tilted-normal']], 'onsager/OnsagerCalc.py::VacancyMediated.Lij')      # + a mirror-only site with a tilted normal (planar vector basis in a general orientation)
 
     from contracts import degree_c
     degree_c.run(rep, ['VacancyMediated.Lij'], replay=degree_c.replay_lij)
